@@ -87,6 +87,23 @@ def blurZ (ker : List (Int × α)) (d : Dims) (f : Vol α) : Vol α :=
 def blur3Fn (ker : List (Int × α)) (d : Dims) (f : Vol α) : Vol α := blurZ ker d (blurY ker d (blurX ker d f))
 end blur
 
+/-- weight a separable 3-D kernel carries at offsets `(qx,qy,qz)` of squared Euclidean length `> m`
+(summed in the nesting order of `blur3Fn`: z outermost, x innermost). `Props/C12.soft_gain_inside/outside`:
+this is the exact bound on `1 − gain` inside and on `gain` outside the cutoff; the driver evaluates it
+and hands it to the harness as the tolerance of the soft-edge margin clauses. -/
+def tail3 [Add α] [Mul α] [OfNat α 0] [OfNat α 1] (ker : List (Int × α)) (m : Int) : α :=
+  wsum ker (fun qz => wsum ker (fun qy => wsum ker (fun qx =>
+    if m < qx * qx + qy * qy + qz * qz then 1 else 0)))
+
+/-- `√A + √m ≤ r` decided on integers: a frequency of squared radius `≤ A` stays inside the cutoff `r`
+under every offset of squared length `≤ m` (hypotheses of `Props/C12.soft_gain_inside`) -/
+def fitsInside (A m r : Int) : Bool :=
+  decide (A + m ≤ r * r) && decide (4 * (A * m) ≤ (r * r - A - m) * (r * r - A - m))
+
+/-- `√A > r + √m` decided on integers (hypotheses of `Props/C12.soft_gain_outside`) -/
+def fitsOutside (A m r : Int) : Bool :=
+  decide (r * r + m < A) && decide (4 * (r * r * m) < (A - r * r - m) * (A - r * r - m))
+
 /-- offsets `-t … t` -/
 def offsets (t : Nat) : List Int := (List.range (2 * t + 1)).map (fun (i : Nat) => (i : Int) - (t : Int))
 
